@@ -37,10 +37,10 @@ PROPS = {
         'assumptions': [
             'keys are byte strings (each element < 256); block_restart_interval >= 1',
             'compressing a block never fails (the writer asserts it)',
-            'mtbl_writer_init on an existing path: O_CREAT|O_EXCL is an OS contract - validated by the driver on regular/empty/symlink/directory targets, not modelled',
+            'mtbl_writer_init on an existing path: model/OpenModel.v states the POSIX meaning of the open(2) flags (O_CREAT|O_EXCL fails on any existing name without following links; O_TRUNC empties); the flag list itself is scraped from the source on every run; that the kernel implements this meaning is validated by the driver on regular/empty/symlink/dangling-symlink/directory targets',
             'the clause "the finished file holds exactly the accepted entries" is checked on the implementation with the extracted independent decoder; its theorem is T09/T01 (reader side)',
         ],
-        'explanation': 'T08a (gate + refused add leaves the state unchanged), T08b (every add sequence: results = "strictly greater than last accepted", no abort), T08e (bytes_compare is the stated total order). Correspondence: real writer vs model writer byte for byte, results vs the rule, refused adds vs the file written from the accepted adds alone.',
+        'explanation': 'T08a (gate + refused add leaves the state unchanged), T08b (every add sequence: results = "strictly greater than last accepted", no abort), T08e (bytes_compare is the stated total order), T08f (for every file system and every path naming anything, the open(2) call of mtbl_writer_init - flags scraped from the source - fails and leaves the file system unchanged; on a fresh path it creates exactly that file; the reader's open changes nothing). Correspondence: real writer vs model writer byte for byte, results vs the rule, refused adds vs the file written from the accepted adds alone.',
     },
     'C10': {
         'engines': [{'name': 'wr', 'timeout_quick': 600, 'timeout_thorough': 7200}],
